@@ -33,6 +33,8 @@ class Cont:
                 n = n - 1
             elif o[0] == 'clear':
                 n = sp.Integer(0)
+            elif o[0] == 'resize':
+                n = o[1]
         return n
 
     def elem(self, idx):
@@ -41,7 +43,7 @@ class Cont:
                 if sp.simplify(o[1] - idx) == 0:
                     return o[2]
                 break           # possibly aliasing store at an index we cannot compare: read is of the mutated state
-            if o[0] in ('clear', 'pop', 'push'):
+            if o[0] in ('clear', 'pop', 'push', 'resize'):
                 break
         if not self.ops:
             return sp.Function('elem')(sp.Symbol(self.base), idx)
@@ -823,6 +825,12 @@ class Reader:
                 out.append((c.front(), s2))
             elif name in ('reserve', 'shrink_to_fit'):
                 out.append((None, s2))
+            elif name == 'resize' and len(vals) == 1:
+                s2.fields[path] = c.with_op('resize', vals[0])
+                s2.effects.append(('resize', path, vals[0]))
+                out.append((None, s2))
+            elif name == 'capacity':
+                out.append((sp.Symbol('capacity(%s)' % c.token(), integer=True, nonnegative=True), s2))
             else:
                 raise Unsupported('container method %s at %s' % (name, e.get('loc')))
         return out
